@@ -11,7 +11,7 @@ import numpy as np
 from .. import core, tlaval, tlc
 
 QUICK = dict(
-    shapes="{<<n>> : n \\in 1..6} \\cup {<<a, b>> : a \\in 1..3, b \\in 1..3} \\cup {<<2, 1, 3>>, <<2, 2, 2>>, <<3, 2, 2>>}",
+    shapes="{<<n>> : n \\in 1..6} \\cup {<<a, b>> : a \\in 1..3, b \\in 1..3} \\cup {<<2, 1, 3>>, <<2, 2, 2>>, <<3, 2, 2>>, <<2, 3, 2>>}",
     shifts="{0, 1, 2}",
     factors="{1, 2, 3}",
     blk="{1, 2, 3}",
